@@ -28,6 +28,7 @@ import (
 	compact_float "github.com/kstenerud/go-compact-float"
 	compact_time "github.com/kstenerud/go-compact-time"
 	"github.com/kstenerud/go-concise-encoding/ce/events"
+	"github.com/kstenerud/go-concise-encoding/internal/common"
 )
 
 type recordTypeBuilder struct{}
@@ -86,12 +87,15 @@ func (_this *recordTypeBuilder) BuildFromBigDecimalFloat(ctx *Context, value *ap
 	return dst
 }
 func (_this *recordTypeBuilder) BuildFromUID(ctx *Context, value []byte, dst reflect.Value) reflect.Value {
+	// The key is replayed for every record of this type, long after the event's buffer has been reused.
+	value = common.CloneBytes(value)
 	ctx.AddRecordTypeKey(func(c *Context, builder Builder) {
 		builder.BuildFromUID(c, value, unusedValue)
 	})
 	return dst
 }
 func (_this *recordTypeBuilder) BuildFromArray(ctx *Context, arrayType events.ArrayType, value []byte, dst reflect.Value) reflect.Value {
+	value = common.CloneBytes(value)
 	ctx.AddRecordTypeKey(func(c *Context, builder Builder) {
 		builder.BuildFromArray(c, arrayType, value, unusedValue)
 	})
